@@ -9,6 +9,7 @@ EXPLANATION = (
     "becomes true only initially and under last_ticket_time.elapsed() >= NETWORK_WAIT_PERIOD; while without a ticket the task "
     "waits at most the remainder of the period; StandardSpawner re-arms (has_spawned = false) only for removal reasons other "
     "than Demobilized and forgets the resolved address on Unreachable; the csptp/sock/pps spawners follow the same rule."
+    ' A granted ticket is used before the task waits again (the spawn test lies between the grant and every wait).'
 )
 NOT_DECIDED = ["wall-clock pacing under the tokio scheduler (timing)", "NtsSpawner deliberately re-arms on every removal (new key exchange); the property speaks of the plain single-server spawner"]
 SP = 'ntpd::daemon::spawn'
